@@ -427,9 +427,12 @@ func (m *Machine) tick() (bool, error) {
 		v := m.popValue()
 		switch v := v.(type) {
 		case machine.Asset:
-			// an account no send takes from has no tracked balance: nothing to protect
+			// saving everything can only lower what the account may still send: a balance that is
+			// already zero or negative stays as it is
 			if accBalances, ok := m.Balances[a]; ok {
-				accBalances[v] = machine.Zero
+				if balance, ok := accBalances[v]; !ok || balance.Gt(machine.Zero) {
+					accBalances[v] = machine.Zero
+				}
 			}
 		case machine.Monetary:
 			// an account no send takes from has no tracked balance: nothing to protect
